@@ -63,6 +63,12 @@ def o_q_request(sim, op, spec, out):
         want_cat = args[1] if len(args) > 1 else None
         want_cap = args[2] if len(args) > 2 else None
         want_unit = M.current_spelling(un) if un is not None else None
+        if un is None and want_cat is not None:
+            # ObtainQuantity(None, category): the category's default unit as registered NOW
+            try:
+                want_unit = _db().GetDefaultUnit(want_cat)
+            except Exception:
+                want_unit = None
     elif form == "ctor":
         want_cat, want_unit = args[0], M.current_spelling(args[1])
     elif form == "derived":
